@@ -389,7 +389,7 @@ def c03(tier, seed):
     if xdrift:
         run.drifts.append(xdrift)
     cf = base_cfgs(tier)
-    r = mc(rep, "c03_sc2", cf["sc2"], wprog, rprog, ["TypeOK", "Monotone", "CatchUp"])
+    r = mc(rep, "c03_sc2", cf["sc2"], wprog, rprog, ["TypeOK", "Monotone", "CatchUp"], properties=["FreshIsLatest"])
     if r.violated:
         raise ToolError(f"ShmSeg violates {r.violated} under SC")
     # wrap: small modulus so that the generation repeats within the bound; the documented coincidence is
@@ -467,6 +467,16 @@ def c11(tier, seed):
     if r.violated:
         raise ToolError(f"ShmSeg violates {r.violated} in the generation sweep")
     rep.exhaustive = tier == "thorough"
+    # unbounded number of publications / crashes / restarts: GenProtocol as an inductive invariant (Apalache)
+    apa = cb.workdir("apa_C11")
+    for what, extra in (("initial state satisfies IndInv", ["--init=Init", "--length=0"]), ("IndInv is inductive over every action", ["--init=IndInit", "--length=1"])):
+        p = cb.run(["timeout", "400", "apalache-mc", "check", "--inv=IndInv", f"--out-dir={apa}", f"--run-dir={apa}/run"] + extra + [os.path.join(cb.SPEC, "GenInd.tla")], timeout=450)
+        if "The outcome is: NoError" not in p.stdout + p.stderr:
+            raise ToolError(f"Apalache: GenInd {what} failed:\n{(p.stdout + p.stderr)[-1500:]}")
+        rep.notes.append(f"Apalache (GenInd.tla, all 65536 generation values symbolic, unbounded behaviours): {what}")
+    rep.extra["symbolic_obligations"] = 2
+    import shutil
+    shutil.rmtree(apa, ignore_errors=True)
     # real write() from every start value
     res = seg_json(["gensweep"], timeout=900)
     rep.evaluations += res["evaluations"]
